@@ -69,7 +69,7 @@ def ghost_mont(q):
 
 def units():
     us = []
-    for n, tier in ((384, "thorough"), (256, "thorough")):
+    for n, tier in ((384, "experimental"), (256, "experimental")):
         N = n // 64
         q = FP.FB(n) + "::montgomery_reduce"
         cs = {q: c_mont(n), FP.FB(n) + "::reduce": FP.fb_reduce(n)}
@@ -109,4 +109,4 @@ _fu0 = units
 
 
 def units():
-    return _fu0() + [mul_unit(768, 384, 384, "thorough")]
+    return _fu0() + [mul_unit(768, 384, 384, "experimental")]
